@@ -403,6 +403,8 @@ int main(int argc, char** argv) {
     const long onlyAsync   = H.paramInt("async", -1);
     const long maxNodes    = H.paramInt("maxnodes", H.thorough ? 6000 : 2500);
     const long salt        = H.paramInt("salt", 0);
+    const long onlyShape   = H.paramInt("shape", -1);
+    const long onlyN       = H.paramInt("n", -1);
     const bool streaming   = H.paramInt("streaming", 1) != 0; // ginger/fennel/sugar policies
 
     for (long k = H.firstCase(); k < H.endCase(); ++k) {
@@ -434,6 +436,10 @@ int main(int argc, char** argv) {
       default: n = 1100 + rng.below((uint64_t)std::max<long>(maxNodes - 1100, 1)); break; // > GenericHVC's 1000-edge threshold possible
       }
       uint64_t gseed = rng.next();
+      if (onlyShape >= 0)
+        shape = (ref::Shape)onlyShape;
+      if (onlyN >= 0)
+        n = (uint64_t)onlyN;
       unsigned nrounds = 2 + (unsigned)rng.below(H.thorough ? 7 : 4);
       uint64_t rseed   = rng.next();
 
